@@ -11,6 +11,10 @@ import threading
 import numpy as np
 
 TLS = threading.local()
+# runs of the pipeline outside any `fitness` call (the final application of the champions' parameters in
+# run_evolve, executed by dask in other threads): recorded here when the driver sets GLOBAL to a list
+GLOBAL = None
+GLOCK = threading.Lock()
 
 
 def _enc(v):
@@ -37,6 +41,9 @@ def capture(detector, tag="m", **kwargs):
     rec = {f"{tag}.{k}": _enc(v) for k, v in kwargs.items()}
     if sink is not None:
         sink.append(rec)
+    elif GLOBAL is not None:
+        with GLOCK:
+            GLOBAL.append((threading.get_ident(), rec))
     tot = 0.0
     for k in sorted(kwargs):
         v = kwargs[k]
